@@ -76,6 +76,11 @@ def run_scenario(sc, strategy=None, race=False):
         for pname in spec.get('nopoll', ()):
             body[pname] = Parameter(pname, FloatRange(), default=0)
             body['read_' + pname] = nopoll(lambda self, mi=mi, pname=pname: act(mi, 'read_' + pname, [(0, 'ok')]))
+        # constants (given in the class or in the configuration) that have a read function all the same: a constant
+        # is never read from the hardware, whatever its value (0 and other falsy constants included)
+        for pname, (cv, where) in spec.get('consts', {}).items():
+            body[pname] = Parameter(pname, FloatRange(), default=1, **({'constant': cv} if where == 'class' else {}))
+            body['read_' + pname] = (lambda self, mi=mi, pname=pname: act(mi, 'read_' + pname, [(0, 'ok')]))
         # read handlers (frappy/rwhandler.py): ReadHandler polls every key, CommonReadHandler only its first key
         from frappy.rwhandler import CommonReadHandler, ReadHandler
         rh = spec.get('rh')
@@ -116,6 +121,9 @@ def run_scenario(sc, strategy=None, race=False):
         cfg['slowinterval'] = max(0.1, spec['slow'] * TICK)
         for pname, v in spec.get('writes', {}).items():
             cfg[pname] = {'value': v[0] if isinstance(v, (tuple, list)) else v}
+        for pname, (cv, where) in spec.get('consts', {}).items():
+            if where == 'cfg':
+                cfg[pname] = {'constant': cv}
         return cls(f'm{mi}', LoggerStub(f'm{mi}'), cfg, Srv())
 
     class Starter:
